@@ -250,7 +250,7 @@ class NullWalk(object):
                     eq = U
                     if a == b and a[1] in ("NULL", "nullptr"):
                         eq = T
-                    elif {a[1], b[1]} == {"NULL", "nullptr"}:
+                    elif {a[1], b[1]} == {"NULL", "nullptr"} or {a[1], b[1]} == {"NULL", "nonnull"}:
                         eq = F
                     return eq if op == "==" else k_not(eq)
             return U
@@ -345,6 +345,131 @@ class NullWalk(object):
             return self._nav_over(f, n["a"][1], C) and self._nav_over(f, n["a"][2], C)
         return False
 
+    def _nonnull_at(self, f, header, body, C):
+        from .flow import ReachingDefs, var_id
+        import re
+        out = {}
+        assigned = set()
+        for b in body:
+            for n in f.blocks[b]["n"]:
+                if n["k"] == "asg":
+                    t = f.nodes.get(n["a"][0])
+                    if t is not None and t["k"] == "ref":
+                        assigned.add(t["n"])
+                elif n["k"] == "decl":
+                    assigned |= set(v["n"] for v in n["vars"])
+                elif n["k"] == "call":
+                    for a in n.get("a", ()):
+                        an = f.nodes.get(a)
+                        if an is not None and an["k"] == "ref" and is_chunk_ptr(an.get("t")):
+                            tgt = self.db.func_of_call(f, n)
+                            ps = tgt.d["params"] if tgt is not None else None
+                            ai = n["a"].index(a)
+                            if ps is None or (ai < len(ps) and "&" in ps[ai]["t"] and not ps[ai]["t"].startswith("const")):
+                                assigned.add(an["n"])
+        rd = None
+        hn = f.blocks[header]["n"]
+        t = f.blocks[header].get("term")
+        at = hn[0]["i"] if hn else (t.get("lc", t.get("c")) if t else None)
+        if at is None:
+            return out
+        for cn, pol in f.guard_conds(header):
+            if cn is None:
+                continue
+            m = re.match(r"^(\w+)->(IsNotNullChunk|IsNullChunk)\(\)$", expr_str(f, cn))
+            if not m or (m.group(2) == "IsNotNullChunk") != (pol is True):
+                continue
+            x = m.group(1)
+            if x in C or x in assigned:
+                continue
+            cnode = f.nodes.get(cn)
+            onode = f.nodes.get(cnode.get("o")) if cnode is not None and cnode.get("k") == "call" else None
+            ref = [onode] if onode is not None and onode["k"] == "ref" and onode.get("d") in ("lv", "pv") and is_chunk_ptr(onode.get("t")) else []
+            if not ref:
+                continue
+            if rd is None:
+                rd = ReachingDefs(f, self.db)
+            d1 = set(id(i[1]) for i in rd.at(cn, var_id(ref[0])))
+            d2 = set(id(i[1]) for i in rd.at(at, var_id(ref[0])))
+            if d1 == d2:
+                out[x] = ("ptr", "nonnull")
+                self._nn_ids = getattr(self, "_nn_ids", {})
+                self._nn_ids[(f.key, header, x)] = var_id(ref[0])
+        return out
+
+    def _there_and_back(self, f, header, body, C, nn):
+        """the cursor can only be the null chunk here if it *starts* there.  That is the case in the idiom
+               E = y->GetNext...();  x = E->GetPrev...();  while (x != y) x = x->GetPrev...();
+        (or mirrored) when E is not tested: for E = null chunk the way back starts at the null chunk, whose GetPrev() is the
+        null chunk and not the tail of the list.  Returns True when a cursor's value at loop entry is such an E-derived chunk."""
+        from .flow import ReachingDefs, var_id
+        rd = ReachingDefs(f, self.db)
+        hn = f.blocks[header]["n"]
+        t = f.blocks[header].get("term")
+        at = hn[0]["i"] if hn else (t.get("lc", t.get("c")) if t else None)
+        if at is None:
+            return False
+
+        def chain(i):
+            """(root variable node, [navigation method names]) of a navigation chain"""
+            names = []
+            n = f.nodes.get(i)
+            while n is not None:
+                if n["k"] == "cast":
+                    n = f.nodes.get(n["a"][0])
+                elif n["k"] == "call" and n.get("c") in self.nav and "o" in n:
+                    names.append(n["c"].split("::")[-1])
+                    n = f.nodes.get(n["o"])
+                else:
+                    break
+            return n, names
+
+        def direction(names):
+            d = set("next" if "Next" in x else ("prev" if "Prev" in x else "?") for x in names)
+            return d.pop() if len(d) == 1 else None
+        body_nodes = set(n["i"] for b in body for n in f.blocks[b]["n"])
+        for x in C:
+            ref = [y for b in body for z in f.blocks[b]["n"] for y in [f.nodes.get(k) for k in ([z["i"]] + list(z.get("a", ())) + ([z["o"]] if "o" in z else []))]
+                   if y is not None and y["k"] == "ref" and y.get("n") == x and y.get("d") in ("lv", "pv")]
+            if not ref:
+                continue
+            for info in rd.at(at, var_id(ref[0])):
+                if info[1]["i"] in body_nodes:
+                    continue
+                rhs = rd.rhs_of(info)
+                if rhs is None:
+                    continue
+                root, names = chain(rhs)
+                if root is None or root["k"] != "ref" or not names or direction(names) is None:
+                    continue
+                e = root["n"]
+                if e in nn:
+                    continue
+                # E's own definition: a navigation in the opposite direction from one of the chunks known to be real
+                for info2 in rd.at(info[1]["i"], var_id(root)):
+                    rhs2 = rd.rhs_of(info2)
+                    if rhs2 is None:
+                        continue
+                    root2, names2 = chain(rhs2)
+                    if root2 is not None and root2["k"] == "ref" and root2["n"] in nn and names2 and direction(names2) not in (None, direction(names)) \
+                            and getattr(self, "_nn_ids", {}).get((f.key, header, root2["n"])) == var_id(root2):
+                        # no test of (this value of) E between its definition and the loop that excludes the null chunk
+                        tested = False
+                        d_at_use = set(id(q[1]) for q in rd.at(info[1]["i"], var_id(root)))
+                        for cn, pol in f.guard_conds(header):
+                            c = f.nodes.get(cn) if cn is not None else None
+                            if c is None or c["k"] != "call" or "o" not in c or not isinstance(pol, bool):
+                                continue
+                            o = f.nodes.get(c["o"])
+                            if o is None or o["k"] != "ref" or o.get("n") != e or not (c.get("c") or "").startswith("Chunk::"):
+                                continue
+                            tv = self.truth(c["c"])
+                            if tv in (T, F) and tv != pol and set(id(q[1]) for q in rd.at(cn, var_id(root))) == d_at_use:
+                                tested = True
+                        if not tested:
+                            return True
+        return False
+
     def analyse_loop(self, f, header, body):
         """returns None if the loop can be left at the null chunk (or has no cursor); otherwise a dict describing
         the definite divergence"""
@@ -352,6 +477,12 @@ class NullWalk(object):
         if not C:
             return None
         env = {v: NULL for v in C}
+        # a chunk variable the loop does not assign and that a dominating test has shown not to be the null chunk (the
+        # variable of an enclosing `while (pc->IsNotNullChunk())`) stays a real chunk: `tmp != pc` is then true for good
+        nn = self._nonnull_at(f, header, body, C)
+        if nn and not self._there_and_back(f, header, body, C, nn):
+            nn = {}
+        env.update(nn)
         # the loop must actually test or advance a cursor: require a cursor assignment inside the body
         # explore from the header under env
         seen = set()
